@@ -479,6 +479,31 @@ def rule_p1(repo, res):
                              (items in norm(a.args[0]) or norm(a.args[0]) in ("self", "self.items()"))) or \
                             (isinstance(a, ast.ListComp) and (items in src or "in self" in src))
                 good = callee in ("type(self)", "self.__class__") and fresh
+        # the optional state (3rd element) must not carry the item list: it is applied by __dict__.update (shallow copy:
+        # shared list) -- the private attribute's mangled name is fixed by the DEFINING class, not by type(self)
+        mangled = f"_{CONTAINER}{items}" if items.startswith("__") else items
+        state_ok = True
+        for r in rets:
+            v = r.value
+            if isinstance(v, ast.Tuple) and len(v.elts) >= 3:
+                st = v.elts[2]
+                names = {x.id for x in ast.walk(st) if isinstance(x, ast.Name)}
+                defs = [a.value for a in ast.walk(fn) if isinstance(a, ast.Assign) and isinstance(a.targets[0], ast.Name)
+                        and a.targets[0].id in names]
+                exprs = [st] + defs
+                uses_dict = any("vars(self)" in norm(x) or "self.__dict__" in norm(x) for x in exprs)
+                if uses_dict:
+                    consts = {c.value for x in exprs for c in ast.walk(x) if isinstance(c, ast.Constant) and isinstance(c.value, str)}
+                    filtered = mangled in consts and any(isinstance(c, ast.Compare) for x in exprs for c in ast.walk(x))
+                    state_ok = state_ok and filtered
+        res.oblige("P1", f"{CONTAINER}.{m}: the state it returns excludes the item list (attribute '{mangled}')", ok=state_ok)
+        if not state_ok:
+            res.add(Finding("P1", f"{CONTAINER}.{m}", "state carries the item list",
+                            f"{CONTAINER}.{m} builds its state from the instance dictionary without excluding '{mangled}' "
+                            "(the name-mangled item list; the mangled name is fixed by the defining class, so computing it "
+                            "from type(self).__name__ fails for every subclass): copy.copy applies the state with "
+                            "__dict__.update, so the copy shares its item list with the original",
+                            where=f"pvl/collections.py:{fn.lineno}"))
         res.oblige("P1", f"{CONTAINER}.{m} returns (type(self), (fresh list of the pairs,), …)", ok=good)
         if not good:
             res.add(Finding("P1", f"{CONTAINER}.{m}", "reduction value",
